@@ -228,4 +228,109 @@ theorem units_succ (g : Nat) (M : Bytes) (off : Nat) :
        else units g M (off + (specUnit (M.drop off)).consumed)) := by
   rw [units]
   split <;> rfl
+/-! ### the unit loop -/
+
+theorem parseLoop_spec (cmds : List Cmd) (pats : List Pattern.Pat) (ht : TableOK cmds pats) (hs : NoScript113 cmds)
+    (M : Bytes) (B L : Nat) (hML : M.length = L) :
+    ∀ (fuel g : Nat) (c : Ctx) (b l : Nat) (prev : Option (Nat × Nat)) (pe : Option Bytes) (res : Bool),
+      c.cmds = cmds → B ≤ b → b + l = B + L → B + L ≤ c.buf.length →
+      (c.buf.drop b).take l = M.drop (b - B) → PrevOK c.buf B b prev pe →
+      l + 1 ≤ fuel → l + 1 ≤ g →
+      (∀ u ∈ units g M (b - B), u.wellFormed = true ∧ 0 ≤ u.nParams) →
+      ∃ es, (parseLoop fuel c b l prev res).1.events = c.events ++ es ∧
+        Real cmds (dispatchTrace es) ((units g M (b - B)).filter (fun u => !u.header.isEmpty))
+          (expGo pats (units g M (b - B)) pe) := by
+  intro fuel
+  induction fuel with
+  | zero => intro g c b l prev pe res _ _ _ _ _ _ hf; omega
+  | succ fuel ih =>
+    intro g c b l prev pe res hcm hB hsum hN hsuf hprev hf hg hwf
+    obtain ⟨g', rfl⟩ : ∃ g', g = g' + 1 := ⟨g - 1, by omega⟩
+    rw [units_succ] at hwf ⊢
+    generalize hs0 : M.drop (b - B) = s at hsuf hwf ⊢
+    have hsl : s.length = l := by rw [← hsuf]; simp; omega
+    obtain ⟨w1, w2⟩ := hwf _ List.mem_cons_self
+    dsimp only at w1 w2
+    obtain ⟨t1, t2, t3, es1, t4, t5⟩ := stepUnit_spec cmds pats ht hs B L c b l prev pe res s hcm hB hsum hN hsuf hprev w1 w2
+    obtain ⟨a1, a2, a3, -⟩ := unit_align s w1 w2
+    rw [parseLoop_succ, hsuf, a1]
+    rw [a1] at a2 a3
+    generalize stepUnit c b l prev res = st at t1 t2 t3 t4 t5 ⊢
+    obtain ⟨c1, prev1, res1⟩ := st
+    dsimp only at t1 t2 t3 t4 t5 ⊢
+    have hoff : (b - B) + l = M.length := by omega
+    -- the rest of the loop, for whatever previous effective header the step leaves behind
+    have key : ∀ pe', PrevOK c1.buf B (b + (specUnit s).consumed) prev1 pe' →
+        ∃ es2, (if (specUnit s).consumed < l then
+            parseLoop fuel c1 (b + (specUnit s).consumed) (l - (specUnit s).consumed) prev1 res1
+          else (c1, res1)).1.events = c1.events ++ es2 ∧
+          Real cmds (dispatchTrace es2)
+            ((if (specUnit s).consumed = 0 ∨ b - B + (specUnit s).consumed ≥ M.length then []
+              else units g' M (b - B + (specUnit s).consumed)).filter (fun u => !u.header.isEmpty))
+            (expGo pats (if (specUnit s).consumed = 0 ∨ b - B + (specUnit s).consumed ≥ M.length then []
+              else units g' M (b - B + (specUnit s).consumed)) pe') := by
+      intro pe' hP
+      by_cases hlt : (specUnit s).consumed < l
+      · have hne : s ≠ [] := by intro h0; rw [h0] at hsl; simp at hsl; omega
+        have h1 := a3 hne
+        have hcond : ¬ ((specUnit s).consumed = 0 ∨ b - B + (specUnit s).consumed ≥ M.length) := by omega
+        rw [if_pos hlt, if_neg hcond]
+        have hidx : b + (specUnit s).consumed - B = b - B + (specUnit s).consumed := by omega
+        have hsuf' : (c1.buf.drop (b + (specUnit s).consumed)).take (l - (specUnit s).consumed) =
+            M.drop (b + (specUnit s).consumed - B) := by
+          have e1 : M.drop (b - B + (specUnit s).consumed) = s.drop (specUnit s).consumed := by
+            rw [← hs0, List.drop_drop]
+          have e2 : (c.buf.drop (b + (specUnit s).consumed)).take (l - (specUnit s).consumed) =
+              ((c.buf.drop b).take l).drop (specUnit s).consumed := by
+            rw [List.drop_take, List.drop_drop]
+          rw [t3, hidx, e1, e2, hsuf]
+        have := ih g' c1 (b + (specUnit s).consumed) (l - (specUnit s).consumed) prev1 pe' res1 t1 (by omega)
+          (by omega) (by rw [t2]; exact hN) hsuf' hP (by omega) (by omega)
+          (by
+            rw [hidx]
+            intro u hu
+            apply hwf u
+            rw [if_neg hcond]
+            exact List.mem_cons_of_mem _ hu)
+        rw [hidx] at this
+        exact this
+      · have hcond : ((specUnit s).consumed = 0 ∨ b - B + (specUnit s).consumed ≥ M.length) := by omega
+        rw [if_neg hlt, if_pos hcond]
+        exact ⟨[], by simp, by simp [dispatchTrace, expGo, Real]⟩
+    rw [w1]
+    simp only [if_true]
+    by_cases hl0 : (specUnit s).headerLen = 0
+    · rw [if_pos hl0] at t5
+      obtain ⟨t6, t7⟩ := t5
+      obtain ⟨es2, e1, e2⟩ := key pe t7
+      refine ⟨es1 ++ es2, by rw [e1, t4, List.append_assoc], ?_⟩
+      rw [dispatchTrace_append, t6, List.nil_append]
+      have hemp : ((s.drop (specUnit s).headerOff).take (specUnit s).headerLen).isEmpty = true := by
+        rw [hl0]; simp
+      rw [List.filter_cons]
+      unfold expGo
+      dsimp only
+      rw [hemp]
+      simp only [Bool.not_true, Bool.false_eq_true, if_false, if_true]
+      exact e2
+    · rw [if_neg hl0] at t5
+      obtain ⟨ev, t6, t7, t8⟩ := t5
+      obtain ⟨es2, e1, e2⟩ := key _ t8
+      refine ⟨es1 ++ es2, by rw [e1, t4, List.append_assoc], ?_⟩
+      rw [dispatchTrace_append, t6]
+      have hemp : ((s.drop (specUnit s).headerOff).take (specUnit s).headerLen).isEmpty = false := by
+        obtain ⟨-, -, -, -, -, -, a7⟩ := unit_align s w1 w2
+        have := (a7 (by omega)).2.1
+        cases hh : (s.drop (specUnit s).headerOff).take (specUnit s).headerLen with
+        | nil =>
+          have hlen : ((s.drop (specUnit s).headerOff).take (specUnit s).headerLen).length = (specUnit s).headerLen := by
+            simp; omega
+          rw [hh] at hlen; simp at hlen; omega
+        | cons x xs => rfl
+      rw [List.filter_cons]
+      unfold expGo
+      dsimp only
+      rw [hemp]
+      simp only [Bool.not_false, if_true, Bool.false_eq_true, if_false]
+      exact ⟨t7, e2⟩
 end ScpiVerif.Lemmas.Dispatch
